@@ -73,6 +73,118 @@ def model_names(model, types, tyname):
     return out
 
 
+def first_leaf(e):
+    """path of the first symbolic leaf below an element (leaves are Term("leaf", "<field>.<field>...", type))"""
+    t = deref(e.text) if e.text is not None else None
+    if isinstance(t, Term) and t.op == "leaf":
+        return t.args[0]
+    for c in e.children:
+        p_ = first_leaf(c)
+        if p_:
+            return p_
+    return None
+
+
+def member_fields(model, tyname):
+    """{xml element name: snake-case field} of the model's body members"""
+    from vlib.smithy import snake
+    sh = model.shapes.get(NS + tyname)
+    if not sh or sh.get("type") not in ("structure",):
+        return None
+    out = {}
+    for mn, m in sh.get("members", {}).items():
+        out[m.get("traits", {}).get("smithy.api#xmlName", mn)] = snake(mn)
+    return out
+
+
+def binding_problems(model, ty, root):
+    """each child element carries the member the model gives that element name to (a swap that is symmetric in encoder and
+    decoder survives the round trip; this does not)"""
+    mf = member_fields(model, ty)
+    out = []
+    if mf is None:
+        return out
+    for c in root.children:
+        lp = first_leaf(c)
+        if lp is None or c.name not in mf:
+            continue
+        field = lp.split(".")[0]
+        if field.replace("_", "") != mf[c.name].replace("_", ""):
+            out.append(("element-binding:%s.%s" % (ty, c.name), "<%s> of %s carries the member `%s`, the model gives that element to `%s`" % (
+                c.name, ty, field, mf[c.name]), root.dump()))
+    return out
+
+
+def names_problems(model, types, ty, docs, root, flat):
+    ty_problems = []
+    mn = model_names(model, types, ty)
+    if mn is None:
+        return ty_problems
+    got_names = {}
+    for c in root.children:
+        if c.name in flat:
+            got_names[c.name] = "flat"
+        elif c.children and len(set(cc.name for cc in c.children)) == 1 and ("all-present/2" in docs) and \
+                len([x_ for x_ in docs["all-present/2"][1].children if x_.name == c.name][0].children) == 2 * len(c.children):
+            got_names[c.name] = "wrapped:" + c.children[0].name
+        else:
+            got_names[c.name] = "single"
+    for n_, k_ in mn.items():
+        if k_ == "attribute":
+            if n_ in got_names:
+                ty_problems.append(("xml-attribute-as-element:%s.%s" % (ty, n_), "%s.%s is an XML attribute in the model but is encoded as a child element" % (ty, n_), root.dump()))
+            continue
+        if n_ not in got_names:
+            ty_problems.append(("name-missing:%s.%s" % (ty, n_), "the model's element <%s> of %s is never written (written: %s)" % (n_, ty, sorted(got_names)), root.dump()))
+        elif got_names[n_] != k_ and not (k_ == "single" and got_names[n_].startswith("wrapped")):
+            ty_problems.append(("list-shape:%s.%s" % (ty, n_), "<%s> of %s is encoded as %s, the model says %s" % (n_, ty, got_names[n_], k_), root.dump()))
+    for n_ in got_names:
+        if n_ not in mn:
+            ty_problems.append(("name-extra:%s.%s" % (ty, n_), "%s writes an element <%s> the model does not have (model: %s)" % (ty, n_, sorted(mn)), root.dump()))
+    return ty_problems
+
+
+def encoder_only(rep, prog, types, hooks, model, pair_types):
+    """types that are only ever encoded (operation outputs): element names, list shapes and element-to-member binding against the
+    API model on the all-present documents (there is no decoder to round-trip through)"""
+    problems = []
+    n = 0
+    tys = sorted(set(t for (t, m) in prog.methods if m == "serialize_content") - set(pair_types))
+    for ty in tys:
+        if types.shape(ty)[0] != "struct":
+            continue
+        t1 = time.time()
+        try:
+            docs = {}
+            for label, kw in configs(types, ty):
+                if not label.startswith("all-present"):
+                    continue
+                v = Builder(types, **kw).build(ty)
+                root, e, _ = hooks.serialize_content(ty, v)
+                if e:
+                    problems.append(("ser:%s:%s" % (ty, label), "serializer fails on %s: %s" % (label, e), None))
+                    continue
+                docs[label] = (v, root)
+            if "all-present/1" not in docs:
+                continue
+            root = docs["all-present/1"][1]
+            flat = set()
+            if "all-present/2" in docs:
+                names2 = [c.name for c in docs["all-present/2"][1].children]
+                flat = set(x for x in names2 if names2.count(x) > 1)
+            tp = names_problems(model, types, ty, docs, root, flat) + binding_problems(model, ty, root)
+        except rsx.Unsupported as u:
+            rep.fail_inconclusive("%s (encoder only): %s" % (ty, u))
+            continue
+        n += 1
+        rep.states += 1
+        if not tp:
+            rep.obligation("xml(%s, encoder only): element names, list shapes and element-to-member binding as the model prescribes" % ty,
+                           "rsx+z3", "holds", time.time() - t1, queries=2)
+        problems += tp
+    return problems, n
+
+
 def run(rep, tier):
     rep.engines["z3"] = z3.get_version_string()
     t_all = time.time()
@@ -167,31 +279,9 @@ def run(rep, tier):
                         for f in changed:
                             if f in req:
                                 ty_problems.append(("strict-missing:%s.%s" % (ty, f), "required member %s of %s may be missing without MissingField" % (f, ty), None))
-                # element names against the model
-                mn = model_names(model, types, ty)
-                if mn is not None:
-                    got_names = {}
-                    names1 = [c.name for c in root.children]
-                    for c in root.children:
-                        if c.name in flat:
-                            got_names[c.name] = "flat"
-                        elif c.children and len(set(cc.name for cc in c.children)) == 1 and ("all-present/2" in docs) and \
-                                len([x_ for x_ in docs["all-present/2"][1].children if x_.name == c.name][0].children) == 2 * len(c.children):
-                            got_names[c.name] = "wrapped:" + c.children[0].name
-                        else:
-                            got_names[c.name] = "single"
-                    for n_, k_ in mn.items():
-                        if k_ == "attribute":
-                            if n_ in got_names:
-                                ty_problems.append(("xml-attribute-as-element:%s.%s" % (ty, n_), "%s.%s is an XML attribute in the model but is encoded as a child element" % (ty, n_), root.dump()))
-                            continue
-                        if n_ not in got_names:
-                            ty_problems.append(("name-missing:%s.%s" % (ty, n_), "the model's element <%s> of %s is never written (written: %s)" % (n_, ty, sorted(got_names)), None))
-                        elif got_names[n_] != k_ and not (k_ == "single" and got_names[n_].startswith("wrapped")):
-                            ty_problems.append(("list-shape:%s.%s" % (ty, n_), "<%s> of %s is encoded as %s, the model says %s" % (n_, ty, got_names[n_], k_), None))
-                    for n_ in got_names:
-                        if n_ not in mn:
-                            ty_problems.append(("name-extra:%s.%s" % (ty, n_), "%s writes an element <%s> the model does not have (model: %s)" % (ty, n_, sorted(mn)), None))
+                # element names against the model, and which member each element carries
+                ty_problems += names_problems(model, types, ty, docs, root, flat)
+                ty_problems += binding_problems(model, ty, root)
         except rsx.Unsupported as u:
             rep.fail_inconclusive("%s: %s" % (ty, u))
             continue
@@ -200,6 +290,9 @@ def run(rep, tier):
             rep.obligation("xml(%s): round trip over %d presence/list patterns, strictness, names vs model" % (ty, len(configs(types, ty))),
                            "rsx+z3", "holds", time.time() - t1, queries=len(configs(types, ty)))
         problems += ty_problems
+    eo_problems, n_eo = encoder_only(rep, prog, types, hooks, model, tys)
+    problems += eo_problems
+    rep.bound("%d encoder-only XML types (operation outputs): all-present documents with list lengths 1 and 2" % n_eo)
     # top-level documents
     tops = sorted(set(t for (t, m) in prog.methods if m == "serialize") & set(t for (t, m) in prog.methods if m == "deserialize"))
     n_top = 0
